@@ -12,6 +12,7 @@ import (
 	"math/rand"
 	"os"
 	"path/filepath"
+	"sort"
 	"strconv"
 	"testing/iotest"
 
@@ -67,6 +68,10 @@ type crossEvent struct {
 	OutLen int    `json:"outlen"`
 	Err    bool   `json:"err"`
 	Input  []int  `json:"input"` // diagnostics only
+	// long runs (op "stoplong"): ids = the last items seen (a window), n = number of items seen, pre = the items before the window are
+	// the reference run's (compared in the harness, id by id)
+	N   int  `json:"n"`
+	Pre bool `json:"pre"`
 }
 
 // ---------------------------------------------------------------- readers with a schedule / a fault
@@ -470,7 +475,93 @@ func faultDrive(args []string) error {
 }
 
 // ---------------------------------------------------------------- C18
+
+// stopLong: the reference run of a long iteration (all items), then stops at a sparse set of positions: the first and last ones, around
+// every power of two, around multiples of 10000, the middle, a few random ones. A stopped run is recorded by its length, its last items
+// and whether the items before those were the reference run's.
+func stopLong(tw *traceWriter, sid int, tg *stopTarget, r *rand.Rand) {
+	tab := newInterner()
+	var full []gItem
+	_, panicked := tg.run(func(it gItem) bool { full = append(full, it); return true })
+	cfg := "ordered"
+	if tg.unordered {
+		cfg = "unordered"
+	}
+	fullIds := tab.ids(full)
+	tw.emit(crossEvent{Sid: sid, Fmt: tg.name, Op: "full", Cfg: cfg, WF: tg.errLast, Ids: fullIds, Panic: panicked, Input: []int{}})
+	n := len(full)
+	stops := map[int]bool{}
+	add := func(x int) {
+		if x >= 1 && x <= n+1 {
+			stops[x] = true
+		}
+	}
+	for d := -1; d <= 4; d++ {
+		add(1 + d)
+		add(n - d)
+		add(n/2 + d)
+	}
+	for p := 1; 1<<p <= n+1; p++ {
+		add(1<<p - 1)
+		add(1 << p)
+		add(1<<p + 1)
+	}
+	for m := 10000; m <= n+1 && m <= 50000; m += 10000 {
+		add(m - 1)
+		add(m)
+		add(m + 1)
+	}
+	for j := 0; j < 12; j++ {
+		add(1 + r.Intn(n+1))
+	}
+	var order []int
+	for x := range stops {
+		order = append(order, x)
+	}
+	sort.Ints(order)
+	const window = 8
+	for _, stop := range order {
+		cnt, pre := 0, true
+		var tail []gItem
+		after, p := tg.run(func(it gItem) bool {
+			cnt++
+			tail = append(tail, it)
+			if len(tail) > window {
+				if !tg.unordered && cnt-window <= n && !sameItem(tail[0], full[cnt-window-1]) {
+					pre = false
+				}
+				tail = tail[1:]
+			}
+			return cnt < stop
+		})
+		rp := false
+		if tg.rangeRun != nil {
+			rp = tg.rangeRun(stop)
+		}
+		tw.emit(crossEvent{Sid: sid, Fmt: tg.name, Op: "stoplong", Cfg: cfg, WF: tg.errLast, Ids: tab.ids(tail), K: stop, N: cnt, Pre: pre,
+			After: after, Panic: p || rp, Input: []int{}})
+	}
+}
+
+func sameItem(a, b gItem) bool {
+	if a.K != b.K || len(a.F) != len(b.F) {
+		return false
+	}
+	for i := range a.F {
+		if len(a.F[i]) != len(b.F[i]) {
+			return false
+		}
+		for j := range a.F[i] {
+			if a.F[i][j] != b.F[i][j] {
+				return false
+			}
+		}
+	}
+	return true
+}
+
 type stopTarget struct {
+	long      bool // a deliberately long iteration: reference run collected without a cap, sparse stop positions
 	name      string
 	unordered bool
 	errLast   bool // for this iterator an error item is always the last one
@@ -637,14 +728,105 @@ func stopDrive(args []string) error {
 				return p
 			}})
 	}
+	// long iterations (stopped at a sparse set of positions): thousands of items in the quick tier; beyond 2^20 k-mers, beyond 10^4 and
+	// 10^5 levels of nesting in the thorough tier
+	mkTree := func(root *newick.Node, name string) {
+		id := map[*newick.Node]int{}
+		var walk func(n *newick.Node)
+		walk = func(n *newick.Node) {
+			id[n] = len(id) + 1
+			for _, c := range n.Children {
+				walk(c)
+			}
+		}
+		walk(root)
+		proj := func(n *newick.Node) gItem { return gItem{"rec", [][]int{{id[n]}}} }
+		for _, pre := range []bool{true, false} {
+			it, nm := root.PostOrder, "newick/PostOrder"
+			if pre {
+				it, nm = root.PreOrder, "newick/PreOrder"
+			}
+			targets = append(targets, stopTarget{name: nm + "(" + name + ")", long: true,
+				run: func(v func(gItem) bool) (int, bool) { return run1(it(), proj, v) },
+				rangeRun: func(stop int) bool {
+					p, _ := catch(func() {
+						n := 0
+						for range it() {
+							if n++; n >= stop {
+								break
+							}
+						}
+					})
+					return p
+				}})
+		}
+	}
+	mkKmers := func(n, k int) {
+		seq := make([]byte, n)
+		for j := range seq {
+			seq[j] = "ACGTacgtNn"[r.Intn(10)]
+		}
+		targets = append(targets, stopTarget{name: "sequtil/CanonicalSubsequences(" + strconv.Itoa(n) + ")", long: true,
+			run: func(v func(gItem) bool) (int, bool) {
+				n := 0
+				return run1(sequtil.CanonicalSubsequences(seq, k), func(b []byte) gItem {
+					n++
+					return gItem{"rec", [][]int{{n}, ints(b)}}
+				}, v)
+			},
+			rangeRun: func(stop int) bool {
+				p, _ := catch(func() {
+					n := 0
+					for range sequtil.CanonicalSubsequences(seq, k) {
+						if n++; n >= stop {
+							break
+						}
+					}
+				})
+				return p
+			}})
+	}
+	mkTree(nwComb(r, 1500, 1), "comb 1500")
+	mkTree(nwRandTree(r, 5000, true), "chain 5000")
+	mkTree(nwRandTree(r, 3000, false), "random 3000")
+	mkKmers(5000, 1+r.Intn(6))
+	mkKmers(70000, 3)
+	{
+		t := trie.New()
+		for j := 0; j < 3000; j++ {
+			b := make([]byte, 1+r.Intn(12))
+			for k := range b {
+				b[k] = "abc\x00\xff"[r.Intn(5)]
+			}
+			t.Add(b)
+		}
+		targets = append(targets, stopTarget{name: "trie/ForEach(3000)", unordered: true, long: true,
+			run: func(v func(gItem) bool) (int, bool) {
+				return run1(func(y func([]byte) bool) { t.ForEach(y) }, func(b []byte) gItem { return gItem{"rec", [][]int{ints(b)}} }, v)
+			}})
+	}
+	if thorough() {
+		mkTree(nwComb(r, 12000, 1), "comb 12000, leaf first")
+		mkTree(nwComb(r, 12000, 0), "comb 12000, spine first")
+		mkTree(nwRandTree(r, 100000, true), "chain 100000")
+		mkKmers(1<<20+40, 4)
+		mkKmers(1<<21+7, 2)
+	}
 	for sid, tg := range targets {
 		sid++
 		if only >= 0 && sid != only {
 			continue
 		}
 		tab := newInterner()
+		if tg.long {
+			stopLong(tw, sid, &tg, newRand(int64(8990+sid)))
+			continue
+		}
 		full, capped, panicked := collect(tg.run)
-		if len(full) > 60 { // keep the quadratic number of stop runs small
+		if len(full) > 60 { // (a quadratic number of stop runs: long inputs are stopped at a sparse set of positions)
+			if !capped && !panicked {
+				stopLong(tw, sid, &tg, newRand(int64(8990+sid)))
+			}
 			continue
 		}
 		cfg := "ordered"
